@@ -131,6 +131,9 @@ impl Scenario for C11 {
 
   fn run(&self, case: &Value) -> Result<Outcome, String> {
     let case: Case = serde_json::from_value(case.clone()).map_err(|e| e.to_string())?;
+    if matches!(case.src, Src::Interval(0)) || matches!(case.src, Src::ColdSync(n) if n > 50) || case.acts.len() > 60 {
+      return Err("bad shape".into());
+    }
     let w = World::new();
     let subs_count = Arc::new(AtomicUsize::new(0));
     let tap: TapLog = Arc::new(Mutex::new(Vec::new()));
